@@ -38,11 +38,11 @@ static reproc_t *any_process(bool allow_null)
    property C07): the OS-level steps, in order. */
 static void plan_add(int kind, int arg)
 {
-  if (g.plan_n < 8) {
-    g.plan_kind[g.plan_n] = kind;
-    g.plan_arg[g.plan_n] = arg;
+  if (gc.plan_n < 8) {
+    gc.plan_kind[gc.plan_n] = kind;
+    gc.plan_arg[gc.plan_n] = arg;
   }
-  g.plan_n++;
+  gc.plan_n++;
 }
 
 static bool plan_action(reproc_stop_action a)
@@ -68,11 +68,11 @@ static bool plan_action(reproc_stop_action a)
 
 static void plan_from(reproc_stop_actions s, int64_t deadline)
 {
-  g.plan_on = true;
-  g.plan_n = 0;
+  gc.plan_on = true;
+  gc.plan_n = 0;
   g.plan_pos = 0;
-  g.plan_invalid_at = -1;
-  g.plan_deadline = deadline;
+  gc.plan_invalid_at = -1;
+  gc.plan_deadline = deadline;
   if ((int) s.first.action == 0 && (int) s.second.action == 0 && (int) s.third.action == 0) {
     /* all noop: wait until the deadline, then terminate and wait indefinitely */
     plan_add(PLAN_WAIT, -2);
@@ -81,7 +81,7 @@ static void plan_from(reproc_stop_actions s, int64_t deadline)
     return;
   }
   if (!plan_action(s.first) || !plan_action(s.second) || !plan_action(s.third)) {
-    g.plan_invalid_at = g.plan_n;
+    gc.plan_invalid_at = gc.plan_n;
   }
 }
 
